@@ -953,6 +953,10 @@ class NestedExtensionArray(ExtensionArray):
 
         if np.ndim(value) == 0:
             value = np.repeat(value, self.flat_length)
+        elif isinstance(getattr(value, "dtype", None), np.dtype):
+            # Arrow wraps numpy memory without copying it: a later in-place write of the caller
+            # into its own array or series must not show up in this array
+            value = value.copy()
 
         try:
             pa_array = pa.array(value, from_pandas=True, type=pa_type)
